@@ -24,12 +24,13 @@ theorem reload_total_world (w : World) (h : Admissible w) : reload w ≠ .err :=
   rw [not_dangerous_of_admissible w h]
   split <;> simp
 
-/-- `reload_total`: for every run, every crash point (the end of any op list, including lists with earlier
-    crashes), any manager lag and any subset of in-flight writes on disk (`durable ≤ d ≤ watch`). -/
+/-- `reload_total`: for every run — every op list, including preimage updates that jump ahead of blocked
+    updates and earlier crashes —, every crash point (the end of any op list), any manager lag and any
+    subset of in-flight writes on disk (`durable ≤ d ≤ watch`). -/
 theorem reload_total (baseId : Nat) (base : Nums) (ops : List Op) (d : Nat)
     (h1 : (reach baseId base ops).durable ≤ d) (_h2 : d ≤ (reach baseId base ops).watch) :
     reload ((reach baseId base ops).world d) ≠ .err :=
-  reload_total_world _ (run_admissible _ (inv_run _ (inv_init baseId base) ops) d h1)
+  reload_total_world _ (run_admissible0 _ (inv0_run _ (inv0_of_inv _ (inv_init baseId base)) ops) d h1)
 
 /-- the node-level read (several channels) succeeds when every channel's world is admissible -/
 theorem reload_node_total (ws : List World) (h : ∀ w ∈ ws, Admissible w) : reloadNode ws ≠ none := by
@@ -64,15 +65,19 @@ theorem closed_only_if_stale (w : World) (r : List Nat) (c : Nat) (h : reload w 
     w.mgr.nums.cp > w.mon.nums.cp ∨ w.mgr.latestId < w.mon.id :=
   (stale_iff w).mp ((reload_closed_iff w).mp ⟨r, c, h⟩)
 
-/-- In run worlds the channel is closed exactly when the monitor on disk contains an update the manager
+/-- PARTIAL (`NoJump`): proved for runs in which no preimage update jumps ahead of blocked updates
+    (`Op.jump`: channel.rs renumbers the blocked updates' ids); with a jump between the manager write and the
+    crash, manager and monitor can agree on an update id while disagreeing on the update's content, and the
+    statement is false for the model and for the real code (KF-C10-3, example at the end of this file).
+    In run worlds the channel is closed exactly when the monitor on disk contains an update the manager
     on disk never generated; nothing from the stale manager is replayed onto the newer monitor and the
     ChannelForceClosed update directly follows the monitor's own last update ("closed from the
     monitor's state"). -/
-theorem stale_closes_from_monitor (baseId : Nat) (base : Nums) (ops : List Op) (d : Nat)
-    (h1 : (reach baseId base ops).durable ≤ d) :
+theorem stale_closes_from_monitor_partial (baseId : Nat) (base : Nums) (ops : List Op) (d : Nat)
+    (hj : NoJump ops) (h1 : (reach baseId base ops).durable ≤ d) :
     ((∃ r c, reload ((reach baseId base ops).world d) = .closed r c) ↔ (reach baseId base ops).disk.latestId < d) ∧
     (∀ r c, reload ((reach baseId base ops).world d) = .closed r c → r = [] ∧ c = closeUpdateId d) := by
-  have hI : Inv (reach baseId base ops) := inv_run _ (inv_init baseId base) ops
+  have hI : Inv (reach baseId base ops) := inv_run _ (inv_init baseId base) ops hj
   generalize reach baseId base ops = st at *
   have hb : st.baseId ≤ d := Nat.le_trans hI.h1 h1
   refine ⟨by rw [reload_closed_iff, run_stale_iff st hI d hb], ?_⟩
@@ -116,13 +121,14 @@ theorem resume_consistent_world (w : World) (r : List Nat) (h : reload w = .resu
         rw [isDangerous_iff]; simp at hx; omega
       rw [this] at hd; cases hd
 
-/-- `resume_consistent`: in run worlds a resumed channel replays exactly the consecutive ids
+/-- `resume_consistent`, run form.  PARTIAL (`NoJump`, see `stale_closes_from_monitor_partial`; what is
+    missing is exactly KF-C10-3).  In run worlds a resumed channel replays exactly the consecutive ids
     `d+1 .. unblockedId` (all of them in the snapshot's in-flight list, in order); once they are applied
     the monitor's id equals the manager's released id (after the channel dropped the blocked updates the
     monitor already contains), the blocked updates that remain are exactly the consecutive ids above it,
     and the manager is not behind that monitor in any commitment number. -/
-theorem resume_consistent (baseId : Nat) (base : Nums) (ops : List Op) (d : Nat) (r : List Nat)
-    (h1 : (reach baseId base ops).durable ≤ d)
+theorem resume_consistent_partial (baseId : Nat) (base : Nums) (ops : List Op) (d : Nat) (r : List Nat)
+    (hj : NoJump ops) (h1 : (reach baseId base ops).durable ≤ d)
     (h : reload ((reach baseId base ops).world d) = .resumed r) :
     d ≤ (reach baseId base ops).disk.latestId ∧
     r = (reach baseId base ops).disk.inFlight.filter (fun i => decide (i > d)) ∧
@@ -130,7 +136,7 @@ theorem resume_consistent (baseId : Nat) (base : Nums) (ops : List Op) (d : Nat)
     monIdAfter d r = Nat.max d (reach baseId base ops).disk.unblockedId ∧
     blockedAfter (reach baseId base ops).disk d = List.range' (Nat.max d (reach baseId base ops).disk.unblockedId + 1)
       ((reach baseId base ops).disk.latestId - Nat.max d (reach baseId base ops).disk.unblockedId) := by
-  have hI : Inv (reach baseId base ops) := inv_run _ (inv_init baseId base) ops
+  have hI : Inv (reach baseId base ops) := inv_run _ (inv_init baseId base) ops hj
   generalize reach baseId base ops = st at *
   have hb : st.baseId ≤ d := Nat.le_trans hI.h1 h1
   obtain ⟨hs, _, hr⟩ := reload_resumed _ r h
@@ -171,16 +177,16 @@ example : reload ((reach 5 ⟨9, 9, 9⟩ [.update ⟨1, 0, 0⟩ false, .complete
 example : (let st := reach 0 ⟨9, 9, 9⟩ [.update ⟨1, 0, 0⟩ false, .update ⟨0, 0, 1⟩ true, .persistManager, .release, .complete 2]
     (reload (st.world 2), blockedAfter st.disk 2, blockedAfter st.disk 1)) = (.resumed [], [], [2]) := by decide
 
-/-- `repeated_crash_idempotent` (resume): if the node crashes again during recovery — after some or all of
+/-- `repeated_crash_idempotent` (resume).  PARTIAL (`NoJump`).  If the node crashes again during recovery — after some or all of
     the replayed updates reached the disk (`d ≤ d' ≤ max d unblockedId`), before the manager was written
     again — the second restart ends in exactly the state a single crash with the monitor at `d'` gives. -/
-theorem repeated_crash_idempotent (baseId : Nat) (base : Nums) (ops : List Op) (d d' : Nat) (r : List Nat)
-    (h1 : (reach baseId base ops).durable ≤ d) (h2 : d ≤ (reach baseId base ops).watch)
+theorem repeated_crash_idempotent_partial (baseId : Nat) (base : Nums) (ops : List Op) (d d' : Nat) (r : List Nat)
+    (hj : NoJump ops) (h1 : (reach baseId base ops).durable ≤ d) (h2 : d ≤ (reach baseId base ops).watch)
     (hr : reload ((reach baseId base ops).world d) = .resumed r)
     (h3 : d ≤ d') (h4 : d' ≤ Nat.max d (reach baseId base ops).disk.unblockedId) :
     step (step (reach baseId base ops) (.crash d)) (.crash d') = step (reach baseId base ops) (.crash d') ∧
     reload ((step (reach baseId base ops) (.crash d)).world d') = .resumed (r.filter (fun i => decide (i > d'))) := by
-  have hI : Inv (reach baseId base ops) := inv_run _ (inv_init baseId base) ops
+  have hI : Inv (reach baseId base ops) := inv_run _ (inv_init baseId base) ops hj
   generalize reach baseId base ops = st at *
   have hb : st.baseId ≤ d := Nat.le_trans hI.h1 h1
   obtain ⟨hs, _, hrl⟩ := reload_resumed _ r hr
@@ -229,27 +235,28 @@ theorem repeated_crash_idempotent (baseId : Nat) (base : Nums) (ops : List Op) (
       simp [hi, this]
     · simp [hi]
 
-/-- `repeated_crash_idempotent` (close): once a crash has closed the channel, every later crash — whatever
+/-- `repeated_crash_idempotent` (close).  PARTIAL (`NoJump`).  Once a crash has closed the channel, every later crash — whatever
     happens in between, as long as the manager on disk still lists the channel — closes it again. -/
-theorem repeated_crash_closed (baseId : Nat) (base : Nums) (ops ops' : List Op) (d d' : Nat) (r : List Nat) (c : Nat)
-    (h1 : (reach baseId base ops).durable ≤ d) (h2 : d ≤ (reach baseId base ops).watch)
+theorem repeated_crash_closed_partial (baseId : Nat) (base : Nums) (ops ops' : List Op) (d d' : Nat) (r : List Nat) (c : Nat)
+    (hj : NoJump ops) (hj' : NoJump ops') (h1 : (reach baseId base ops).durable ≤ d) (h2 : d ≤ (reach baseId base ops).watch)
     (hr : reload ((reach baseId base ops).world d) = .closed r c)
     (h3 : (run (step (reach baseId base ops) (.crash d)) ops').durable ≤ d') :
     ∃ r' c', reload ((run (step (reach baseId base ops) (.crash d)) ops').world d') = .closed r' c' := by
-  have hI : Inv (reach baseId base ops) := inv_run _ (inv_init baseId base) ops
+  have hI : Inv (reach baseId base ops) := inv_run _ (inv_init baseId base) ops hj
   generalize reach baseId base ops = st at *
   have hc1 : (step st (.crash d)).closed = true := by
     simp only [step, h1, h2, decide_true, Bool.and_self, if_true, crashStep, hr]
-  have hI1 := inv_step st hI (.crash d)
-  have hcl : ∀ (ops' : List Op) (s : St), Inv s → s.closed = true → (run s ops').closed = true := by
+  have hI1 := inv_step st hI (.crash d) rfl
+  have hcl : ∀ (ops' : List Op) (s : St), s.closed = true → (run s ops').closed = true := by
     intro ops'
     induction ops' with
-    | nil => intro s _ h; exact h
+    | nil => intro s h; exact h
     | cons op ops' ih =>
-      intro s hIs h
-      refine ih _ (inv_step s hIs op) ?_
+      intro s h
+      refine ih _ ?_
       cases op with
       | update u b => simp [step, h]
+      | jump u => simp [step, h]
       | release => simp [step, h]
       | complete k => simp only [step]; split <;> exact h
       | notify => simp only [step]; split <;> exact h
@@ -259,8 +266,8 @@ theorem repeated_crash_closed (baseId : Nat) (base : Nums) (ops ops' : List Op) 
         split
         · unfold crashStep; split <;> simp [h]
         · exact h
-  have hc2 := hcl ops' _ hI1 hc1
-  have hI2 := inv_run _ hI1 ops'
+  have hc2 := hcl ops' _ hc1
+  have hI2 := inv_run _ hI1 ops' hj'
   generalize run (step st (.crash d)) ops' = s2 at *
   rw [reload_closed_iff, stale_iff]
   right; right; right
@@ -273,5 +280,17 @@ example : (let st := reach 0 ⟨9, 9, 9⟩ [.update ⟨1, 0, 0⟩ false, .update
     = (.resumed [1, 2], .resumed [2], true) := by decide
 example : (let st := reach 0 ⟨9, 9, 9⟩ [.persistManager, .update ⟨1, 0, 0⟩ false, .complete 1]
     (reload (st.world 1), reload ((run (step st (.crash 1)) [.complete 2]).world 2))) = (.closed [] 2, .closed [] 3) := by decide
+
+/-- KF-C10-3 in the model: the manager is written while an RAA update (id 1) is blocked; a preimage update
+    then jumps ahead of it (takes id 1, the blocked one becomes id 2) and reaches the disk; crash.  Manager
+    and monitor agree on id 1, so the channel is resumed, nothing is replayed, and the blocked update is
+    dropped as "already in the monitor" — although the monitor's numbers show it never saw that
+    revocation (9 > 8): `resume_consistent` does not hold without `NoJump`. -/
+example : (let st := reach 0 ⟨9, 9, 9⟩ [.update ⟨0, 1, 1⟩ true, .persistManager, .jump ⟨0, 0, 0⟩]
+    (reload (st.world 1), blockedAfter st.disk 1, (st.world 1).mgr.nums, (st.world 1).mon.nums))
+    = (.resumed [], [], ⟨9, 8, 8⟩, ⟨9, 9, 9⟩) := by decide
+/-- ... while DangerousValue stays unreachable (`reload_total` needs no `NoJump`) -/
+example : reload ((reach 0 ⟨9, 9, 9⟩ [.update ⟨0, 1, 1⟩ true, .persistManager, .jump ⟨0, 0, 0⟩, .release]).world 2)
+    ≠ .err := by decide
 
 end Ldk.C10
